@@ -454,6 +454,7 @@ func runC10(env *Env) {
 	boundaryPromptDelivery(env, rep, "C10-flows", 12)
 	boundaryStaleEvents(env, rep, "C10-flows", 8)
 	threeTokensOneTask(env, rep, "C10-flows", 4)
+	boundaryReentryAfterInterruption(env, rep, "C10-flows", 4)
 	env.WriteCases(rep, "", "Corr.C10corr", "list (nat * nat) * list nat * nat * list nat * nat", items, "c10_mismatches")
 	env.WriteReport(rep)
 }
@@ -590,6 +591,89 @@ func boundaryStaleEvents(env *Env, rep *Report, key string, rounds int) {
 		}
 		if !in.WaitCease(tmoStep) {
 			fail("all tasks answered, the instance did not complete")
+		}
+		in.Close()
+	}
+}
+
+// boundaryReentryAfterInterruption: the exception flow of an interrupting boundary event leads back into the task it
+// interrupted. The second activation is an activation like the first: the task waits for its answer, the boundary
+// event listens again (and interrupts again when its event comes), the answer lets the normal flow continue.
+func boundaryReentryAfterInterruption(env *Env, rep *Report, key string, rounds int) {
+	p := &Prog{}
+	p.Node("start", "start")
+	p.Node("xor", "M")
+	p.Node("task", "H")
+	p.Node("task", "N")
+	p.Node("end", "end")
+	p.Flow("start", "M", "")
+	p.Flow("M", "H", "")
+	p.Flow("H", "N", "")
+	p.Flow("N", "end", "")
+	b := p.Node("boundary", "B0")
+	b.Attrs = `attachedToRef="H" cancelActivity="true"`
+	b.Inner = `<bpmn:signalEventDefinition id="bd0" signalRef="s0"/>`
+	p.Node("task", "X0")
+	p.Flow("B0", "X0", "")
+	p.Flow("X0", "M", "")
+	xmlText := p.XML(`<bpmn:signal id="s0" name="s0"/>`)
+	for r := 0; r < rounds && !rep.Saturated(); r++ {
+		cs := fmt.Sprintf("interrupting boundary event whose exception flow leads back into the task: interrupted %d times, then answered (round %d)", 1+r%2, r)
+		env.Current(cs)
+		defs, err := ParseDefs(xmlText)
+		must(err)
+		in, err := StartInst(defs, InstOpt{})
+		must(err)
+		rep.Evaluations++
+		rep.Nontrivial++
+		rep.Count("reentry_after_interruption")
+		problem := ""
+		act := 0
+		for i := 0; i < 1+r%2 && problem == ""; i++ {
+			act++
+			if !in.WaitUntil(tmoStep, func(l []Ev) bool { return countEv(l, "task", "H") >= act && countEv(l, "listening", "B0") >= act }) {
+				problem = fmt.Sprintf("activation %d: H not requested with its boundary event listening", act)
+				break
+			}
+			in.Signal("s0")
+			if !in.Answer("X0", tmoStep) {
+				problem = fmt.Sprintf("activation %d: the interrupting event did not lead to the exception flow", act)
+			}
+		}
+		if problem == "" {
+			act++
+			if !in.WaitUntil(tmoStep, func(l []Ev) bool { return countEv(l, "task", "H") >= act && countEv(l, "listening", "B0") >= act }) {
+				problem = fmt.Sprintf("activation %d (after the interruption): H not requested with its boundary event listening", act)
+			} else {
+				time.Sleep(10 * time.Millisecond)
+				if n := countEv(in.Log(), "task", "N"); n != 0 {
+					problem = fmt.Sprintf("the normal flow continued %d times before H was answered", n)
+				}
+			}
+		}
+		if problem == "" {
+			// the last H request is the live one
+			var last bpmn.TaskTrace
+			for {
+				t := in.WaitTask("H", 20*time.Millisecond)
+				if t == nil {
+					break
+				}
+				last = t
+			}
+			if last == nil {
+				problem = "no request of H is pending in the last activation"
+			} else {
+				last.Do()
+				if !in.Answer("N", tmoStep) {
+					problem = "H answered in its last activation, the normal flow did not continue"
+				} else if !in.WaitCease(tmoStep) {
+					problem = "all tasks answered, the instance did not complete"
+				}
+			}
+		}
+		if problem != "" {
+			rep.Violate(key, cs, problem+"; log: "+logString(in.Log()))
 		}
 		in.Close()
 	}
